@@ -235,10 +235,12 @@ def run(tier, seed):
                 if sent in seen and seen[sent] != atom:
                     rep.violation('two different atoms have the same explanation', dict(info, other_atom=seen[sent]))
                 seen[sent] = atom
+                plain_args = [v.strip('"') for v in args]
                 for v in args:
                     vv = v.strip('"')
-                    if vv not in sent:
-                        rep.violation('the explanation does not mention the argument value %s' % v, info)
+                    # a value that is the argument of several positions (a loop edge connected_to(1,1)) is named once per position
+                    if vv not in sent or (vv and sent.count(vv) < plain_args.count(vv)):
+                        rep.violation('the explanation does not mention the argument value %s%s' % (v, '' if vv not in sent else ' once for each of the %d positions that hold it' % plain_args.count(vv)), info)
                         break
                 words = pred.replace('_', ' ')
                 if words.lower() not in sent.lower():
